@@ -16,6 +16,8 @@ import Mathlib.Data.List.Count
 namespace VL.Biprop
 open Finset
 
+variable {ord : List Nat}
+
 theorem sumN_eq_sum (f : Nat → Nat) (n : Nat) : sumN f n = ∑ k ∈ range n, f k := by
   induction n with
   | zero => simp [sumN]
@@ -251,11 +253,11 @@ def LabPOk (q : Rat) (qt : Nat → Nat → Rat) (x : Mat Nat) (m n : Nat) (labP 
 
 theorem phase1_ok {q : Rat} {qt : Nat → Nat → Rat} {x : Mat Nat} {m n : Nat} {labD : LabD} {labP : LabP}
     (hD : LabDOk q qt x m n labD) (hP : LabPOk q qt x m n labP) :
-    LabPOk q qt x m n (phase1 q qt x n labD labP) := by
+    LabPOk q qt x m n (phase1 q qt x n ord labD labP) := by
   unfold phase1
   apply foldl_inv (LabPOk q qt x m n) _ labD labP hP
   intro lp e he hlp
-  apply foldl_inv (LabPOk q qt x m n) _ (List.range n) lp hlp
+  apply foldl_inv (LabPOk q qt x m n) _ (ord.filter (fun p => decide (p < n))) lp hlp
   intro lp' p hp hlp'
   split
   · rename_i hc
@@ -265,7 +267,7 @@ theorem phase1_ok {q : Rat} {qt : Nat → Nat → Rat} {x : Mat Nat} {m n : Nat}
     · simp only [List.mem_singleton] at h
       subst h
       simp only [Bool.and_eq_true] at hc
-      exact ⟨List.mem_range.mp hp, (hD e he).1, hc.2⟩
+      exact ⟨of_decide_eq_true (List.mem_filter.mp hp).2, (hD e he).1, hc.2⟩
   · exact hlp'
 
 theorem phase2_ok {q : Rat} {qt : Nat → Nat → Rat} {x : Mat Nat} {m n : Nat} {labD : LabD} {labP : LabP}
@@ -293,11 +295,11 @@ theorem phase2_ok {q : Rat} {qt : Nat → Nat → Rat} {x : Mat Nat} {m n : Nat}
 
 theorem labelLoop_ok {q : Rat} {qt : Nat → Nat → Rat} {x : Mat Nat} {m n : Nat} {under : List Nat} :
     ∀ (f : Nat) (labD : LabD) (labP : LabP), LabDOk q qt x m n labD → LabPOk q qt x m n labP →
-      LabDOk q qt x m n (labelLoop q qt x m n under f labD labP).1 ∧
-      LabPOk q qt x m n (labelLoop q qt x m n under f labD labP).2
+      LabDOk q qt x m n (labelLoop q qt x m n ord under f labD labP).1 ∧
+      LabPOk q qt x m n (labelLoop q qt x m n ord under f labD labP).2
   | 0, _, _, hD, hP => ⟨hD, hP⟩
   | f+1, labD, labP, hD, hP => by
-    have hP' := phase1_ok hD hP
+    have hP' := phase1_ok (ord := ord) hD hP
     have hD' := phase2_ok hD hP'
     simp only [labelLoop]
     split
@@ -308,7 +310,7 @@ theorem labelLoop_ok {q : Rat} {qt : Nat → Nat → Rat} {x : Mat Nat} {m n : N
 
 theorem labeled_ok {q : Rat} {qt : Nat → Nat → Rat} {x : Mat Nat} {m n : Nat} {under over : List Nat}
     (hover : ∀ d ∈ over, d < m) :
-    LabDOk q qt x m n (labeled q qt x m n under over).1 ∧ LabPOk q qt x m n (labeled q qt x m n under over).2 := by
+    LabDOk q qt x m n (labeled q qt x m n ord under over).1 ∧ LabPOk q qt x m n (labeled q qt x m n ord under over).2 := by
   unfold labeled
   apply labelLoop_ok
   · intro e he
@@ -364,7 +366,7 @@ theorem filter_range_nil {m : Nat} {p : Nat → Bool} (h : ((List.range m).filte
   have := List.filter_eq_nil_iff.mp h i (List.mem_range.mpr hi)
   simpa using this
 
-theorem step_done {q : Rat} {V : Mat Rat} {tgt : List Nat} {s : State} (h : step q V tgt s = .ok .done) :
+theorem step_done {q : Rat} {V : Mat Rat} {tgt : List Nat} {s : State} (h : step q ord V tgt s = .ok .done) :
     ∀ i < V.length, rowSum s.x i = tgt.getD i 0 := by
   unfold step at h
   simp only at h
@@ -377,7 +379,7 @@ theorem step_done {q : Rat} {V : Mat Rat} {tgt : List Nat} {s : State} (h : step
     simp only [decide_eq_false_iff_not] at h1 h2
     omega
   · exfalso
-    generalize labeled q (quot V s) s.x V.length (nCols V) _ _ = L at h
+    generalize labeled q (quot V s) s.x V.length (nCols V) ord _ _ = L at h
     obtain ⟨labD, labP⟩ := L
     simp only at h
     split at h
@@ -387,7 +389,7 @@ theorem step_done {q : Rat} {V : Mat Rat} {tgt : List Nat} {s : State} (h : step
       · split at h <;> simp at h
 
 theorem step_transfer {q : Rat} {V : Mat Rat} {tgt : List Nat} {s s' : State}
-    (h : step q V tgt s = .ok (.transfer s')) :
+    (h : step q ord V tgt s = .ok (.transfer s')) :
     s'.dc = s.dc ∧ s'.pc = s.pc ∧ ∃ path, PathCells q (quot V s) s.x V.length (nCols V) path ∧
       applyPath path s.x = .ok s'.x ∧
       ∃ labD labP over f start, augPath labD labP over f start = .ok path := by
@@ -397,10 +399,10 @@ theorem step_transfer {q : Rat} {V : Mat Rat} {tgt : List Nat} {s s' : State}
   · simp at h
   · have hover : ∀ d ∈ (List.range V.length).filter (fun i => decide (rowSum s.x i > tgt.getD i 0)), d < V.length :=
       fun d hd => List.mem_range.mp (List.mem_filter.mp hd).1
-    have hlab := labeled_ok (q := q) (qt := quot V s) (x := s.x) (n := nCols V)
+    have hlab := labeled_ok (ord := ord) (q := q) (qt := quot V s) (x := s.x) (n := nCols V)
       (under := (List.range V.length).filter (fun i => decide (rowSum s.x i < tgt.getD i 0))) hover
     revert hlab
-    generalize labeled q (quot V s) s.x V.length (nCols V) _ _ = L at h
+    generalize labeled q (quot V s) s.x V.length (nCols V) ord _ _ = L at h
     obtain ⟨labD, labP⟩ := L
     intro hlab
     simp only at h hlab
@@ -598,7 +600,7 @@ theorem getD_map_range {α : Type} (f : Nat → α) (m i : Nat) (d : α) (hi : i
   simp [List.getD_eq_getElem?_getD, hi]
 
 theorem step_update {q : Rat} {V : Mat Rat} {tgt : List Nat} {s s' : State} {c : Rat}
-    (h : step q V tgt s = .ok (.update s' c)) :
+    (h : step q ord V tgt s = .ok (.update s' c)) :
     s'.x = s.x ∧ c ≠ 0 ∧ c < 1 ∧ ∃ labD labP, adjCoef q (quot V s) s.x V.length (nCols V) labD labP = .ok c ∧
       s'.dc = (List.range V.length).map (fun i => if hasKey labD i then s.dc.getD i 0 * c else s.dc.getD i 0) ∧
       s'.pc = (List.range (nCols V)).map (fun j => if hasKey labP j then s.pc.getD j 0 / c else s.pc.getD j 0) := by
@@ -606,7 +608,7 @@ theorem step_update {q : Rat} {V : Mat Rat} {tgt : List Nat} {s s' : State} {c :
   simp only at h
   split at h
   · simp at h
-  · generalize labeled q (quot V s) s.x V.length (nCols V) _ _ = L at h
+  · generalize labeled q (quot V s) s.x V.length (nCols V) ord _ _ = L at h
     obtain ⟨labD, labP⟩ := L
     simp only at h
     split at h
@@ -633,7 +635,7 @@ def LoopInv (q : Rat) (V : Mat Rat) (m n : Nat) (s : State) : Prop :=
 
 theorem update_inv {q : Rat} {V : Mat Rat} {tgt : List Nat} {s s' : State} {c : Rat}
     (hq1 : q < 1) (hV : ∀ i j, 0 ≤ vget V i j)
-    (hinv : LoopInv q V V.length (nCols V) s) (h : step q V tgt s = .ok (.update s' c)) :
+    (hinv : LoopInv q V V.length (nCols V) s) (h : step q ord V tgt s = .ok (.update s' c)) :
     LoopInv q V V.length (nCols V) s' := by
   obtain ⟨hx, hc0, hc1, labD, labP, hadj, hdc, hpc⟩ := step_update h
   obtain ⟨hcnn, halpha, hbeta⟩ := adjCoef_bounds hq1 hadj
